@@ -280,7 +280,15 @@ impl<L: Localize> OpeningHours<L> {
     /// assert_eq!(oh.state(date_2), RuleKind::Unknown);
     /// ```
     pub fn state(&self, current_time: L::DateTime) -> RuleKind {
-        self.iter_range(current_time.clone(), current_time + Duration::minutes(1))
+        // The one minute window is built from the local time: across a time zone transition,
+        // the local time one minute later can be before the local time of the start.
+        let naive_time = self.ctx.locale.naive(current_time);
+
+        let naive_next = naive_time
+            .checked_add_signed(Duration::minutes(1))
+            .unwrap_or(DATE_END);
+
+        self.iter_range_naive(naive_time, naive_next)
             .next()
             .map(|dtr| dtr.kind)
             .unwrap_or(RuleKind::Closed)
